@@ -5,12 +5,14 @@ import (
 	"encoding/json"
 	"fmt"
 	"hash/crc32"
+	"net/http"
 	"os"
 	"strings"
 	"time"
 
 	"github.com/practable/relay/verifharness/cmd/c03/hubkit"
 	"github.com/practable/relay/verifharness/lib"
+	log "github.com/sirupsen/logrus"
 )
 
 // ---- payloads: self-delimiting records -------------------------------------------------------
@@ -36,8 +38,18 @@ func makeMsg(o Op) []byte {
 		return []byte{byte('a' + o.ID%26)}
 	}
 	bd := body(o.ID, o.Size-headerLen)
-	h := fmt.Sprintf("R%08x%08x%06x%08x%08x", o.ID, o.N, o.Seq, len(bd), crc32.ChecksumIEEE(bd))
-	return append([]byte(h), bd...)
+	h := []byte(fmt.Sprintf("R%08x%08x%06x%08x%08x", o.ID, o.N, o.Seq, len(bd), crc32.ChecksumIEEE(bd)))
+	h[0] = marker(o.ID)
+	return append(h, bd...)
+}
+
+// every other record starts with a control byte instead of 'R': a byte outside 0x20..0x7e right at
+// the start of the message (still valid UTF-8, so fine in a text message)
+func marker(id uint64) byte {
+	if id%2 == 0 {
+		return 0x02
+	}
+	return 'R'
 }
 
 // symbols of a message for the model: one symbol per whole message
@@ -84,7 +96,7 @@ func parseOpt(data []byte, stats bool) (items []item, bad string, reports int) {
 			data = data[1:]
 			continue
 		}
-		if c != 'R' {
+		if c != 'R' && c != 0x02 {
 			return items, "foreign-bytes", reports
 		}
 		if len(data) < headerLen {
@@ -156,6 +168,8 @@ func newDigest(stats bool) func(*hubkit.Frame) {
 
 // ---- running one scenario on the real relay ---------------------------------------------------
 
+var expiredWaits int // end-of-script waits that ran out in this child
+
 type peerInfo struct {
 	p        *hubkit.Peer
 	scopes   []string
@@ -203,6 +217,15 @@ func runScenario(k *hubkit.Kit, c *Case, dist map[string]int) map[uint64]*peerIn
 			pi := peers[o.N]
 			k.Leave(pi.p)
 			pi.leftAt = i
+		case "partial":
+			// the connection fails in the middle of a message: header for the whole record, half of it, reset
+			pi := peers[o.N]
+			if pi.leftAt < 0 {
+				data := makeMsg(*o)
+				k.Partial(pi.p, o.MT, len(data), data[:len(data)/2])
+				pi.leftAt = i
+				dist["peer:died-mid-message"]++
+			}
 		case "stall":
 			peers[o.N].p.Stall(true)
 		case "unstall":
@@ -279,7 +302,11 @@ func runScenario(k *hubkit.Kit, c *Case, dist map[string]int) map[uint64]*peerIn
 			}
 		}
 		p := pi.p
-		hubkit.WaitFor(8*time.Second, func() bool {
+		patience := 8 * time.Second
+		if expiredWaits >= 3 { // this relay has shown that it does not deliver everything: do not wait long again
+			patience = 300 * time.Millisecond
+		}
+		ok := hubkit.WaitFor(patience, func() bool {
 			if e, _, _ := p.Ended(); e {
 				return true
 			}
@@ -289,6 +316,9 @@ func runScenario(k *hubkit.Kit, c *Case, dist map[string]int) map[uint64]*peerIn
 			}
 			return got >= want
 		})
+		if !ok {
+			expiredWaits++
+		}
 	}
 	time.Sleep(30 * time.Millisecond)
 	// observations, in join order
@@ -673,6 +703,18 @@ func childMain(in, out string) {
 	co := &ChildOut{Dist: map[string]int{}}
 	for i := range cases {
 		c := &cases[i]
+		// environment that must not matter: proxy / tracing headers (every other scenario gives ALL its
+		// connections the same forwarded address and ids), permessage-deflate offered, log level
+		si := uint64(i)
+		if i%2 == 0 {
+			k.Headers = func(*hubkit.Peer) http.Header { return hubkit.ProxyHeaders(4*si + 1) }
+		} else {
+			k.Headers = func(p *hubkit.Peer) http.Header { return hubkit.ProxyHeaders(p.Name + si) }
+		}
+		k.Compress = func(p *hubkit.Peer) bool { return (p.Name+si)%3 == 0 }
+		level := []log.Level{log.PanicLevel, log.TraceLevel, log.DebugLevel}[i%3]
+		log.SetLevel(level)
+		co.Dist["log-level:"+level.String()]++
 		peers := runScenario(k, c, co.Dist)
 		co.Dist["kind:"+c.Kind]++
 		if c.Raw {
